@@ -665,10 +665,14 @@ func (w *msgWorld) performNat(v *visit, sender *h.Peer, admit bool, reason strin
 	if pre {
 		w.e.xtcpMu.RLock()
 	}
+	g := grace()
 	err := sender.Send(m)
 	var got msg.Message
 	if err == nil && (pre || !admit) {
-		got, err = sender.WaitMsg(replyGrace, isResp)
+		got, err = sender.WaitMsg(g, isResp)
+		if err != nil && !sender.Closed() {
+			watchdogHits.Add(1)
+		}
 	}
 	if pre {
 		w.e.xtcpMu.RUnlock()
@@ -692,7 +696,7 @@ func (w *msgWorld) performNat(v *visit, sender *h.Peer, admit bool, reason strin
 				return true
 			}
 			if !admit {
-				c.Violation(kindKey+"-refusal-without-error-reply", "NatHoleVisitor{proxy %q, pre_check %v} that must be refused (%s) got no NatHoleResp within %v", v.Name, pre, reason, replyGrace)
+				c.Violation(kindKey+"-refusal-without-error-reply", "NatHoleVisitor{proxy %q, pre_check %v} that must be refused (%s) got no NatHoleResp within %v", v.Name, pre, reason, g)
 			} else {
 				run.Inconclusive("pre-check: admissible request got no reply")
 			}
@@ -731,8 +735,9 @@ func (w *msgWorld) performNat(v *visit, sender *h.Peer, admit bool, reason strin
 		run.Inconclusive("nat-hole visitor: send failed")
 		return false
 	}
-	okSid := h.Eventually(replyGrace, func() bool { return w.ol.sidCount(target.Name) > before })
+	okSid := h.Eventually(grace(), func() bool { return w.ol.sidCount(target.Name) > before })
 	if !okSid {
+		watchdogHits.Add(1)
 		if r, err := sender.WaitMsg(time.Millisecond, isResp); err == nil && r.(*msg.NatHoleResp).Error != "" {
 			c.Violation("admissible-nathole-visitor-refused", "NatHoleVisitor signed with the key of %s by user %q (allow-list %q, owner %q) was refused: %s",
 				target.Name, v.User, target.Allow, target.OwnerUser, r.(*msg.NatHoleResp).Error)
@@ -756,8 +761,9 @@ func (w *msgWorld) finish() {
 	// replies to admitted NAT-hole requests (they arrive after the owner answered; the sender role waits 1 s)
 	for _, p := range w.pendingNat {
 		tid := p.tid
-		got, err := p.sender.WaitMsg(replyGrace, func(x msg.Message) bool { r, ok := x.(*msg.NatHoleResp); return ok && r.TransactionID == tid })
+		got, err := p.sender.WaitMsg(grace(), func(x msg.Message) bool { r, ok := x.(*msg.NatHoleResp); return ok && r.TransactionID == tid })
 		if err != nil {
+			watchdogHits.Add(1)
 			run.Inconclusive("nat-hole visitor: no final reply for an admitted request")
 			continue
 		}
